@@ -56,18 +56,18 @@ Section SPEC.
     end.
 
   (* ---- guards of the C08 theorem ---- *)
-  Definition sv_guard (md : smode) (s : schema) (v : json) : bool :=
-    g_all2 rc rm fo md s && vg v && g_div s v.
+  Definition sv_guard (md : smode) (usenum : bool) (s : schema) (v : json) : bool :=
+    g_all2 rc rm fo md usenum s && vg v && g_div s v.
 
   (* class 1: every header of the selected response has a schema (is not defined by `content`) *)
   Definition g_hdr (o : vopts) (h : hdr) : bool :=
     match h_schema h with
     | None => false
-    | Some s => match h_decoded h with Some v => negb (h_found h) || sv_guard (md_hdr o) s v | None => true end
+    | Some s => match h_decoded h with Some v => negb (h_found h) || sv_guard (md_hdr o) false s v | None => true end
     end.
   Definition g_media (o : vopts) (body : option json) (m : media) : bool :=
     match m_schema m, body with
-    | Some s, Some v => sv_guard (md_resp o) s v
+    | Some s, Some v => sv_guard (md_resp o) true s v
     | _, _ => true
     end.
   Definition g_resp (o : vopts) (status : N) (responses : list (string * rdef)) (ct : string)
